@@ -36,7 +36,7 @@ def run(ctx):
     depth = ctx.pick(2, 3)
     beh = []
     for k in KINDS:
-        d = depth + 1 if k in ("t3state", "ed25519") else depth
+        d = depth + 1 if k in ("t3state", "ed25519", "codec") else depth
         for b in ctx.generate("Memory", cfg="Gen_Memory_%s.cfg" % k, workers=1, overrides={"Depth": d}, raw=True):
             m = vlib.re.match(r'"(\w+)", <<(.*)>>', b, flags=vlib.re.S)
             calls = [x.strip().strip('"') for x in m.group(2).split(",")] if m and m.group(2).strip() else []
